@@ -113,13 +113,38 @@ TailShapes ==
      run |-> Lam(<<"n">>, "", App(V("lp"), <<I(0), V("n")>>))],
     [nm |-> "non-tail-let-init", defs |-> <<Def("lp", Lam(<<"i", "n">>, "", If(AtEnd, Depth, Let(<< <<"r", App(V("lp"), <<Inc("i"), V("n")>>)>> >>, V("r")))))>>,
      run |-> Lam(<<"n">>, "", App(V("lp"), <<I(0), V("n")>>))] }
+\* generated product: a two-function cycle pa -> pb -> pa where the KIND of the callee global pb
+\* (what the compiler knows about it), the tail CONTEXT of the call in pa and the call PATH vary.
+\* The compiler picks a different call instruction per kind (arity known / arity checked / value).
+TKinds == {"fixed", "rest", "closure", "assigned"}
+TCtxs  == {"if", "and", "or", "cond", "when", "begin", "let", "letstar"}
+TVias  == {"direct", "apply"}
+TBodyB == If(AtEnd, Depth, App(V("pa"), <<Inc("i"), V("n")>>))
+TDefB(kd) == CASE kd = "fixed"    -> <<Def("pb", Lam(<<"i", "n">>, "", TBodyB))>>
+               [] kd = "rest"     -> <<Def("pb", Lam(<<"i", "n">>, "r", TBodyB))>>
+               [] kd = "closure"  -> <<Def("mkb", Lam(<< >>, "", Lam(<<"i", "n">>, "", TBodyB))), Def("pb", App(V("mkb"), << >>))>>
+               [] kd = "assigned" -> <<Def("pb", Lam(<<"i", "n">>, "", TBodyB)), Def("zz", SetE("pb", V("pb")))>>
+TArgs(kd) == IF kd = "rest" THEN <<Inc("i"), V("n"), I(9)>> ELSE <<Inc("i"), V("n")>>
+TCall(kd, via) == IF via = "direct" THEN App(V("pb"), TArgs(kd)) ELSE P("apply", <<V("pb"), P("list", TArgs(kd))>>)
+TCtx(cx, e) == CASE cx = "if"      -> e
+                 [] cx = "and"     -> And(<<C(BoolV(TRUE)), e>>)
+                 [] cx = "or"      -> Or(<<C(BoolV(FALSE)), e>>)
+                 [] cx = "cond"    -> Cond(<< <<C(BoolV(FALSE)), I(0)>> >>, e)
+                 [] cx = "when"    -> When(C(BoolV(TRUE)), <<C(Void), e>>)
+                 [] cx = "begin"   -> Begin(<<SetE("x", V("i")), e>>)
+                 [] cx = "let"     -> Let(<< <<"u", I(7)>>, <<"w", P("list", <<V("i")>>)>> >>, e)
+                 [] cx = "letstar" -> LetStar(<< <<"u", I(7)>>, <<"w", V("u")>> >>, e)
+TailProduct ==
+  { [nm |-> "cycle", defs |-> <<Def("pa", Lam(<<"i", "n">>, "", If(AtEnd, Depth, TCtx(cx, TCall(kd, via)))))>> \o TDefB(kd),
+     run |-> Lam(<<"n">>, "", App(V("pa"), <<I(0), P("*", <<I(2), V("n")>>)>>))]
+    : kd \in TKinds, cx \in TCtxs, via \in TVias }
 \* every run happens in the same context (a top-level define), so the depth is comparable
 TailFam == { << Pre, sh.defs \o <<Def("run", sh.run)>>,
                 <<Def("da", App(V("run"), <<IF "big" \in DOMAIN sh THEN MidHalf ELSE BigHalf>>)),
                   Def("db", App(V("run"), <<IF "big" \in DOMAIN sh THEN sh.big ELSE BigN>>)),
                   Def("dc", App(V("run"), <<IF "big" \in DOMAIN sh THEN MidHalf ELSE BigHalf>>))>>,
                 <<Emit1(P("depth=?", <<V("da"), V("db")>>)), Emit1(P("depth=?", <<V("da"), V("dc")>>))>> >>
-             : sh \in TailShapes }
+             : sh \in TailShapes \cup TailProduct }
 
 -----------------------------------------------------------------------------
 (* control: capture context x wind nesting x error x invocation, inside ONE form *)
